@@ -7,7 +7,8 @@ EXPLANATION = ("C18: (R1) the comment scan: the two 21-byte prefixes, slice reac
                "combinations), trim, legacy flag, first match returns; (R2) producer/consumer pairing of the data URL: the "
                "literal prefix of to_data_url's format template must be among the preambles decode_data_url strips, and both "
                "sides use the standard padded base64 alphabet; (R3) data: references go to decode_data_url; (R4) the detection "
-               "predicate, evaluated over all 256 key-presence combinations, is true for what each writer always writes; (R8) the reader form of the predicate passes a header-less document through the streaming stripper unchanged whatever the chunking; (R9) the consumer of the data URL is the regular decoder (accumulators, range-mapping reader: shared with C02).")
+               "predicate, evaluated over all 256 key-presence combinations, is true for what each writer always writes; (R8) the reader form of the predicate passes a header-less document through the streaming stripper unchanged whatever the chunking; (R9) the consumer of the data URL is the regular decoder (accumulators, range-mapping reader: shared with C02)."
+               " (R0, R0b) the accessor table and the encoder's duplicate-skip (the data-URL round trip writes through them).")
 NOT_DECIDED = "first-match over all texts as a value-level statement (BufRead::lines is trusted); equality of the decoded map."
 
 
